@@ -285,6 +285,18 @@ def eval : Expr → Option Int
 def initBytes (τ : Ty) (e : Expr) : Option (List Nat) :=
   (eval e).map fun v => bytesLE τ (convert τ v)
 
+/-- initialiser of an object of an enumerated type: the enumerated type is compatible with `int` here
+    (6.7.2.2p4 leaves the choice to the implementation; ppci: `int`; gcc picks `unsigned int` when no
+    enumerator is negative, which has the same image for every value both can represent) -/
+def initBytesEnum (e : Expr) : Option (List Nat) :=
+  (eval e).map fun v => bytesLE .int (convert .int v)
+
+/-- `T *p = (T *)e;`: integer to pointer conversion is implementation-defined (6.3.2.3p5); gcc: the value is
+    converted to the width of a pointer (sign-extended when the source type is signed), i.e. `convert` to the
+    64-bit unsigned type of the mathematical value -/
+def initBytesPtr (e : Expr) : Option (List Nat) :=
+  (eval e).map fun v => bytesLE .ulong (convert .ulong v)
+
 /-- `case e:` in a `switch` whose controlling expression has type `ctl`:
     converted to the promoted type of the controlling expression (6.8.4.2p5) -/
 def caseLabel (ctl : Ty) (e : Expr) : Option Int :=
